@@ -439,6 +439,13 @@ def _reader_table(ctx, fi):
             return False
         return len(f) == 1 and f[0] == (b0, 0, 4, 0)
 
+    def low_field(e):
+        try:
+            f = norm.bitfields(e)
+        except NormError:
+            return False
+        return len(f) == 1 and f[0][0] == b0 and f[0][1] == 0 and f[0][3] == 0 and f[0][2] is not None
+
     raw = {}
     for n in range(16):
         def hook(e, n=n):
@@ -465,7 +472,7 @@ def _reader_table(ctx, fi):
     pos = set()
     for n in (13, 14, 15):
         elts = raw[n][0].value.elts
-        tk = [i for i, x in enumerate(elts) if tkl_field(x)]
+        tk = [i for i, x in enumerate(elts) if low_field(x)]
         co = [i for i, x in enumerate(elts) if isinstance(x, ast.Constant) and isinstance(x.value, int)]
         if len(tk) == 1 and len(co) == 1:
             pos.add((co[0], tk[0], 3 - co[0] - tk[0]))
@@ -824,6 +831,21 @@ def _frame_loop(ctx):
     return L
 
 
+def _gate(ctx, facts, want, what):
+    """Dominating branch outcomes equal to the wanted normal form.  When there
+    is none but a dominating test is an opaque call on self / a plain function
+    (a helper the rule does not look into), the rule cannot interpret the
+    code: analysis error instead of a verdict."""
+    hits = [(c_, ps, e) for c_, ps, e in facts if c_ == want]
+    if not hits:
+        for c_, ps, e in facts:
+            if c_[0] in ("truth", "nottruth"):
+                for x in ast.walk(e):
+                    if isinstance(x, ast.Call) and (isinstance(x.func, ast.Name) or (isinstance(x.func, ast.Attribute) and chain(x.func.value) == "self")) and not is_log_call(x):
+                        ctx.need(False, "%s: a dominating test calls %s, which the rule does not look into" % (what, _txt(x.func)))
+    return hits
+
+
 def _leaves_quietly(L, pseudo):
     """From this branch outcome the function is left without sizing again,
     decoding, dispatching or aborting."""
@@ -899,7 +921,7 @@ def c(ctx):
     want_some = ("isnot", "EXT__", "None")
     want_full = ("lt", Poly.atom("TOTAL__") - Poly.atom("len(self._spool)") - Poly.const(1))
     for want, what in ((want_some, "no size can be read yet"), (want_full, "the frame is not yet complete")):
-        hits = [(c_, ps, e) for c_, ps, e in facts if c_ == want]
+        hits = _gate(ctx, facts, want, "completeness gate")
         ctx.ob("decoding happens only when it is not the case that %s" % what, bool(hits), fi, L.dec, detail="dominating facts: %s" % sorted(repr(f[0]) for f in facts))
         for c_, ps, e in hits:
             quiet = all(_leaves_quietly(L, o) for o in _other_side(cfg, ps))
@@ -911,11 +933,10 @@ def d(ctx):
     L = _frame_loop(ctx)
     fi, cfg, N = L.fi, L.cfg, L.N
     prog = ctx.prog
-    ctx.floor("abort sites in data_received", len(L.aborts), 1)
     ctx.floor("_dispatch_incoming sites in data_received", len(L.dispatch), 1)
     facts = L.guard_facts(L.DEC)
     want = ("lt", Poly.atom("TOTAL__") - Poly.atom("self._my_max_message_size") - Poly.const(1))
-    hits = [(c_, ps, e) for c_, ps, e in facts if c_ == want]
+    hits = _gate(ctx, facts, want, "size gate")
     ctx.ob("decoding is dominated by the gate 'announced size <= own maximum message size'", bool(hits), fi, L.dec, detail="dominating facts: %s" % sorted(repr(f[0]) for f in facts))
     for c_, ps, e in hits:
         ok = all(_aborts_and_stops(L, o) for o in _other_side(cfg, ps))
@@ -937,7 +958,7 @@ def d(ctx):
     for call in L.dispatch:
         nid = cfg.loc1(call)
         gf = L.guard_facts(nid)
-        hits = [(c_, ps, e) for c_, ps, e in gf if c_ == ("isnot", "self._remote_settings", "None")]
+        hits = _gate(ctx, gf, ("isnot", "self._remote_settings", "None"), "CSM gate")
         ctx.ob("dispatch is dominated by 'the peer's CSM has been received'", bool(hits), fi, call, detail="dominating facts: %s" % sorted(repr(f[0]) for f in gf))
         for c_, ps, e in hits:
             ok = all(_aborts_and_stops(L, o) for o in _other_side(cfg, ps))
@@ -981,7 +1002,6 @@ def e(ctx):
     allowed = "aiocoap.error.UnparsableMessage"
     good = [x for x in escs if x.cls == allowed or prog.is_subclass(x.cls, allowed)]
     bad = [x for x in escs if x not in good]
-    ctx.floor("UnparsableMessage raise sites reached from _decode_message", len(good), 4)
     reached = {f for x in escs for f in x.via} | {x.func for x in escs}
     ctx.need("options.Options.decode" in reached, "the escape analysis did not enter Options.decode")
     for x in sorted(good, key=lambda x: (x.func, x.text)):
@@ -995,7 +1015,7 @@ def e(ctx):
         ctx.ob("only UnparsableMessage may leave _decode_message (data_received converts nothing else into an Abort)", False, ofi, node,
                detail="%s raised here escapes via %s" % (x.cls, " > ".join(x.via) if x.via else fi.short), construct=x.text)
     ctx.ob("escape set of _decode_message is a subset of {UnparsableMessage}", not bad, None, None, construct="_decode_message") if not bad else None
-    ctx.extra["escape_analysis"] = {
+    ctx.extra["escape_analysis_c15"] = {
         "region_root": fi.short,
         "escapes": sorted(repr(x) for x in escs),
         "resolved_edges": EA.resolved_edges,
@@ -1006,6 +1026,7 @@ def e(ctx):
         "by_unique_name": EA.res.by_unique_name,
         "format_dispatch_hint": formats,
     }
+    ctx.floor("UnparsableMessage raise sites reached from _decode_message", len(good), 3)
 
 
 # ---------------------------------------------------------------------------
@@ -1050,8 +1071,8 @@ def f(ctx):
     afi = prog.func("transports.rfc8323common.RFC8323Remote.abort")
     cfg = cfg_of(afi)
     calls = [c_ for c_, _ in find("self._abort_with($m)", afi.node)]
-    ctx.floor("_abort_with sites in abort", len(calls), 1)
-    ctx.ob("every normal path through abort reaches _abort_with", cfg.must_pass(cfg.entry, {cfg.loc1(c_) for c_ in calls}), afi, calls[0])
+    ctx.ob("every normal path through abort reaches _abort_with", bool(calls) and cfg.must_pass(cfg.entry, {cfg.loc1(c_) for c_ in calls}), afi, calls[0] if calls else afi.node,
+           construct=None if calls else "abort")
     for c_ in calls:
         m = _resolve_at(afi, cfg, c_.args[0], cfg.loc1(c_))
         code = None
@@ -1066,7 +1087,7 @@ def f(ctx):
     cfg = cfg_of(tfi)
     closes = [c_ for c_, _ in find("self._transport.close()", tfi.node)] + [c_ for c_, _ in find("self._transport.abort()", tfi.node)]
     sends = [c_ for c_, _ in find("self._send_message(%s)" % tp[0], tfi.node)]
-    ctx.floor("transport close sites in _abort_with", len(closes), 1)
+    ctx.ob("_abort_with closes the transport", bool(closes), tfi, tfi.node, construct="_abort_with")
     send_nodes = {cfg.loc1(s) for s in sends}
     close_nodes = {cfg.loc1(s) for s in closes}
     for c_ in closes:
@@ -1196,24 +1217,39 @@ def _eval_code_test(ctx, module, test, is_code, v):
     return None
 
 
+def _reach_under(ctx, fi, cfg, is_code, v):
+    """CFG nodes reachable from the entry along non-exceptional edges when the
+    code has value v (tests about the code are decided, all others go both ways)."""
+    seen = {cfg.entry}
+    todo = [cfg.entry]
+    while todo:
+        n = todo.pop()
+        node = cfg.nodes[n]
+        r = _eval_code_test(ctx, fi.module, node.ast, is_code, v) if node.kind == "test" else None
+        for d, lab in cfg.succ[n]:
+            if lab == "exc" and cfg.nodes[d].kind != "handler":
+                continue
+            if r is not None and lab in ("T", "F") and (lab == "T") != r:
+                continue
+            if d not in seen:
+                seen.add(d)
+                todo.append(d)
+    return seen
+
+
 def _site_domain(ctx, fi, cfg, nid, is_code, domain):
-    """(code values of `domain` for which the site is not excluded by a
-    dominating guard, [(guard, polarity)] not about the code)."""
-    alive = set(domain)
+    """(code values of `domain` for which the site is reachable,
+    [(guard, polarity)] dominating the site that are not about the code)."""
+    cache = fi.__dict__.setdefault("_c15_reach", {})
+    alive = set()
+    for v in domain:
+        if v not in cache:
+            cache[v] = _reach_under(ctx, fi, cfg, is_code, v)
+        if nid in cache[v]:
+            alive.add(v)
     others = []
     for g, pol, _ps in cfg.guards(nid):
-        if not isinstance(g, ast.expr):
-            others.append((g, pol))
-            continue
-        about = False
-        for v in list(alive):
-            r = _eval_code_test(ctx, fi.module, g, is_code, v)
-            if r is None:
-                break
-            about = True
-            if r != pol:
-                alive.discard(v)
-        if not about and _eval_code_test(ctx, fi.module, g, is_code, 0) is None:
+        if not isinstance(g, ast.expr) or _eval_code_test(ctx, fi.module, g, is_code, 0) is None:
             others.append((g, pol))
     return alive, others
 
@@ -1311,7 +1347,7 @@ def g(ctx):
 
     # CSM options
     settings = [(k, st) for k, st in stores_to(fi.node, "self._remote_settings", nested=False)]
-    ctx.floor("stores to _remote_settings in _process_signaling", len(settings), 3)
+    ctx.floor("stores to _remote_settings in _process_signaling", len(settings), 1)
     seen_keys = {}
     for kind, st in settings:
         nid, alive, lvs, nums, rest = site(st)
@@ -1356,7 +1392,6 @@ def g(ctx):
 
     # aborts
     aborts = [c_ for c_, _ in find("self.abort($*a, $**k)", fi.node)]
-    ctx.floor("abort sites in _process_signaling", len(aborts), 3)
     crit_cover = set()
     unknown_cover = set()
     crit_other = {n for n in OPT_REPR if n % 2 == 1}
@@ -1374,12 +1409,11 @@ def g(ctx):
             ctx.ob("abort outside the option loop fires exactly for unknown signalling codes", ok, fi, c_, detail="codes %s, further conditions %s" % (sorted(alive), [_txt(g_) for g_, _ in rest]))
             if ok:
                 unknown_cover |= alive
-    ctx.ob("an unknown critical option aborts in every known signalling message (CSM, Ping, Pong, Release, Abort)", known <= crit_cover, fi, aborts[0], detail="covered codes %s" % sorted(crit_cover), construct="_process_signaling: critical option handling")
-    ctx.ob("every unknown 7.xx code aborts", unknown_cover == dom - known, fi, aborts[-1], detail="covered codes %s" % sorted(unknown_cover), construct="_process_signaling: unknown code handling")
+    ctx.ob("an unknown critical option aborts in every known signalling message (CSM, Ping, Pong, Release, Abort)", known <= crit_cover, fi, fi.node, detail="covered codes %s" % sorted(crit_cover), construct="_process_signaling: critical option handling")
+    ctx.ob("every unknown 7.xx code aborts", unknown_cover == dom - known, fi, fi.node, detail="covered codes %s" % sorted(unknown_cover), construct="_process_signaling: unknown code handling")
 
     # Ping -> Pong
     sends = [c_ for c_, _ in find("self._send_message($m)", fi.node)]
-    ctx.floor("_send_message sites in _process_signaling", len(sends), 1)
     ping_cover = set()
     for c_ in sends:
         nid, alive, lvs, nums, rest = site(c_)
@@ -1395,26 +1429,27 @@ def g(ctx):
         ctx.ob("the Pong carries the token of the Ping", tok is not None and chain(tok) == M + ".token", fi, c_, detail="token = %s" % (_txt(tok) if tok is not None else None))
         if ok:
             ping_cover |= alive
-    ctx.ob("Ping is answered", SIGNALLING["PING"] in ping_cover, fi, sends[0], construct="_process_signaling: ping handling")
+    ctx.ob("Ping is answered", SIGNALLING["PING"] in ping_cover, fi, fi.node, construct="_process_signaling: ping handling")
 
     # Release / Abort
     raises = [n for n in walk_no_nested(fi.node) if isinstance(n, ast.Raise)]
-    ctx.floor("raise sites in _process_signaling", len(raises), 2)
     close_cover = set()
     for r in raises:
         nid, alive, lvs, nums, rest = site(r)
         ex = r.exc
         cls = prog.resolve_in_module(fi.module, chain(ex.func)) if isinstance(ex, ast.Call) and chain(ex.func) else None
         inner = None
-        if isinstance(ex, ast.Call) and len(ex.args) == 1 and not ex.keywords and isinstance(ex.args[0], ast.Call) and chain(ex.args[0].func):
-            inner = prog.resolve_in_module(fi.module, chain(ex.args[0].func))
+        if isinstance(ex, ast.Call) and len(ex.args) == 1 and not ex.keywords:
+            a0 = _resolve_at(fi, cfg, ex.args[0], nid)
+            if isinstance(a0, ast.Call) and chain(a0.func):
+                inner = prog.resolve_in_module(fi.module, chain(a0.func))
         ok_cls = cls == "aiocoap.transports.rfc8323common.CloseConnection" and inner == "aiocoap.error.RemoteServerShutdown"
         ctx.ob("signalling processing raises only CloseConnection(RemoteServerShutdown(...)) with the error as single argument", ok_cls, fi, r, detail="raises %s(%s)" % (cls, inner))
         ok = alive <= {SIGNALLING["RELEASE"], SIGNALLING["ABORT"]} and bool(alive) and not lvs and not rest
         ctx.ob("the connection is given up only for Release and Abort, unconditionally", ok, fi, r, detail="codes %s, further conditions %s" % (sorted(alive), [_txt(g_) for g_, _ in rest]))
         if ok and ok_cls:
             close_cover |= alive
-    ctx.ob("both Release and Abort from the peer close the connection with RemoteServerShutdown", close_cover == {SIGNALLING["RELEASE"], SIGNALLING["ABORT"]}, fi, raises[0], detail="covered codes %s" % sorted(close_cover),
+    ctx.ob("both Release and Abort from the peer close the connection with RemoteServerShutdown", close_cover == {SIGNALLING["RELEASE"], SIGNALLING["ABORT"]}, fi, fi.node, detail="covered codes %s" % sorted(close_cover),
            construct="_process_signaling: release/abort handling")
     for sub, base in (("aiocoap.error.RemoteServerShutdown", "aiocoap.error.NetworkError"), ("aiocoap.error.NetworkError", "aiocoap.error.Error")):
         prog.cls(sub[len("aiocoap."):])
@@ -1614,9 +1649,16 @@ def h(ctx):
     ctx.need(is_plain_sync(pfi), "_dispatch_incoming is not a plain synchronous function")
     callees = {"_dispatch_incoming": pfi}
 
+    memo = {}
+
     def is_msg(e, nid):
         if not isinstance(e, ast.Name):
             return False
+        if (e.id, nid) not in memo:
+            memo[(e.id, nid)] = _is_msg(e, nid)
+        return memo[(e.id, nid)]
+
+    def _is_msg(e, nid):
         # the local holding the decoded message: its reaching definition at
         # the point of use is the assignment from _decode_message
         cands = [w for w in writes_to_name(fi.node, e.id) if isinstance(w, ast.Assign) and w.value is L.dec]
